@@ -41,6 +41,27 @@ func (s *bothStub) DialURLContext(_ context.Context, u *transport.URL) (net.Conn
 	return &stubConn{id: s.id, url: u, viaCtx: true}, nil
 }
 
+// aliasStub is a dialer that serves its scheme by dialling another registered
+// scheme through the registry (a forwarding/alias transport). It only works if
+// the registry does not hold its lock while a dialer runs.
+type aliasStub struct {
+	id     int
+	target string
+}
+
+func (s *aliasStub) DialURLContext(ctx context.Context, u *transport.URL) (net.Conn, error) {
+	fwd := *u
+	fwd.Scheme = s.target
+	c, err := transport.DialURLContext(ctx, &fwd)
+	if err != nil {
+		return nil, err
+	}
+	if sc, ok := c.(*stubConn); ok && sc.id == s.id+50000 {
+		return &stubConn{id: s.id, url: u, viaCtx: true}, nil
+	}
+	return nil, fmt.Errorf("alias reached something else: %v", c)
+}
+
 const (
 	resMissing = -1 // ErrMissingDialer
 	resOther   = -2 // any other outcome
